@@ -36,7 +36,7 @@ ASSUMPTIONS = [
     "pure-Python ecdsa package, which does not normalise)",
 ]
 REQUIRED_LABELS = {t: ["areas>=2", "out-of-order", "zone-crossing", "multi-zone", "images>=2",
-                       "crlf", "start-record", "keys-observed", "full-zone-area"]
+                       "crlf", "start-record", "keys-observed", "full-zone-area", "layout:same-name"]
                    for t in ("quick", "thorough")}
 
 
@@ -73,7 +73,10 @@ def image(draw):
 
 @st.composite
 def cases(draw, tier):
-    return {"images": draw(st.lists(image(), min_size=1, max_size=4))}
+    return {"images": draw(st.lists(image(), min_size=1, max_size=4)),
+            # how the images lie on disk: app0.hex, app1.hex ... side by side, or one app.hex
+            # per directory (as a build tree of several applications has them)
+            "layout": draw(st.sampled_from(["flat", "flat", "same-name"]))}
 
 
 _TMP = {}
@@ -87,7 +90,11 @@ def workdir():
         atexit.register(shutil.rmtree, _TMP[pid], True)
     d = _TMP[pid]
     for f in os.listdir(d):
-        os.unlink(os.path.join(d, f))
+        q = os.path.join(d, f)
+        if os.path.isdir(q) and not os.path.islink(q):
+            shutil.rmtree(q)
+        else:
+            os.unlink(q)
     return d
 
 
@@ -198,12 +205,16 @@ def secret_forms(sk):
 
 def run_case(c):
     d = workdir()
-    labels = []
+    labels = ["layout:" + c.get("layout", "flat")] if len(c["images"]) >= 2 else []
     paths, hashes = [], []
     for i, img in enumerate(c["images"]):
         text = ihex.write([(a, bytes(x)) for a, x in img["areas"]], img["reclens"], img["order"],
                           img["reemit"], img["start"], img["eol"], img["start_first"])
-        p = os.path.join(d, "app%d.hex" % i)
+        if c.get("layout") == "same-name":
+            os.makedirs(os.path.join(d, "img%d" % i, "bin"), exist_ok=True)
+            p = os.path.join(d, "img%d" % i, "bin", "app.hex")
+        else:
+            p = os.path.join(d, "app%d.hex" % i)
         with open(p, "w", newline="") as f:
             f.write(text)
         want = expected_hash(img)
